@@ -77,11 +77,12 @@ PROPS = {
     },
     "C12": {
         "lean": "CedarProps.C12",
-        "engines": ["gcmformat"],
-        "oracle_engine": {"gcmformat": "stream"},
+        "engines": ["gcmformat", "handoff"],
+        "oracle_engine": {"gcmformat": "stream", "handoff": "stream"},
+        "accept_props": {"handoff": ["C15"]},
         "trusted": [SYMBOLIC_CRYPTO, "refcodec: independent implementation of the documented frame format (same Go crypto primitives)"],
         "technique": "Lean 4 theorems (wire format by unfolding; nonce distinctness by invariant over arbitrary operation histories) + translation validation against an independent reference codec in both directions",
-        "level_text": "wire_format, first_aad_digests, nonce_sequence / nonces_distinct (any interleaving of sends, buffered writes, secrets, crypto toggles and receives; imported counters), refuses_wrap, iv_once, lost_frame_nonce_not_reused (a frame whose socket write failed has consumed its counter value): kernel-checked over the model. ref_accepts_impl / impl_accepts_ref are discharged by the gcmformat engine: every frame real streams emit is opened by refcodec, refcodec-built frames are fed to the real receiver, counters near 2^32 via NewStreamWithCryptoState driven to the limit through every sending API (SendMessage, SendPartialMessage, WriteMessage flush, EndMessage, PutSecret, typed FlushFrame/FinishMessage) with the refusal judged on the bytes written to the connection; socket write failures (timeout / error / short write after every k bytes of a frame, through every sending API, first and later frames, keyed and imported sessions) followed by further sends, judged by refcodec on the bytes that reached the connection: later frames open at the next counter values, never under a consumed one, IV never announced again; IV freshness as an oracle on the implementation: base IVs of all key installations pairwise distinct also in their last 12 bytes, every byte position varying, every (key, 16-byte nonce) pair of the run used once across endpoints, directions, sessions and hand-offs. size_literals_are_the_code (the 16/16/32-byte sizes are the integer literals of stream.calculateEncryptedSize and message.maxFramePayload, regenerated on every run).",
+        "level_text": "wire_format, first_aad_digests, nonce_sequence / nonces_distinct (any interleaving of sends, buffered writes, secrets, crypto toggles and receives; imported counters), refuses_wrap, iv_once, lost_frame_nonce_not_reused (a frame whose socket write failed has consumed its counter value): kernel-checked over the model. ref_accepts_impl / impl_accepts_ref are discharged by the gcmformat engine: every frame real streams emit is opened by refcodec, refcodec-built frames are fed to the real receiver, counters near 2^32 via NewStreamWithCryptoState driven to the limit through every sending API (SendMessage, SendPartialMessage, WriteMessage flush, EndMessage, PutSecret, typed FlushFrame/FinishMessage) with the refusal judged on the bytes written to the connection; socket write failures (timeout / error / short write after every k bytes of a frame, through every sending API, first and later frames, keyed and imported sessions) followed by further sends, judged by refcodec on the bytes that reached the connection: later frames open at the next counter values, never under a consumed one, IV never announced again; IV freshness as an oracle on the implementation: base IVs of all key installations pairwise distinct also in their last 12 bytes, every byte position varying, every (key, 16-byte nonce) pair of the run used once across endpoints, directions, sessions and hand-offs. The handoff engine (shared with C15) also runs under this check: after a hand-off every frame must still open under the SESSION key by the reference codec (a key or state restored wrongly, e.g. from a caller buffer wiped since, is a C12 matter too). size_literals_are_the_code (the 16/16/32-byte sizes are the integer literals of stream.calculateEncryptedSize and message.maxFramePayload, regenerated on every run).",
         "level_note": "Distinct RNG draws are distinct (crypto/rand); symbolic AEAD in the model, real AES-256-GCM in the correspondence.",
         "assumptions": ["crypto/rand yields fresh IVs"],
     },
